@@ -11,6 +11,7 @@ import SCoda.Gen.Tables
 import SCoda.Gen.Settings
 import SCoda.Gen.TheoryFns
 import SCoda.Model.BarOps
+import SCoda.Model.MidiParse
 
 open SCoda
 
@@ -301,6 +302,15 @@ def handle : P String := do
     | .error e => pure e
     | .ok toks => pure (" ".intercalate ((getInfo c cofFn imp toks).map pInfoRow))
   | "toMido" => do pure (pMsgs (toMido (← msgs)))
+  | "parseMido" => do
+    let ty ← pnat; let time ← pint; let chw ← word
+    let note ← pint; let velocity ← pint; let numerator ← pint; let denominator ← pint
+    let key ← word; let control ← pint; let value ← pint; let program ← pint
+    let channel : Option Int := if chw == "N" then none else chw.toInt?
+    let mty : MidoType := match ty with
+      | 0 => .noteOn | 1 => .noteOff | 2 => .timeSignature | 3 => .keySignature | 4 => .controlChange
+      | 5 => .programChange | _ => .other
+    pure (pExcept pMsg (parseMido { type := mty, time, channel, note, velocity, numerator, denominator, key, control, value, program }))
   | "convert" => do
     let filePpq ← pint; let target ← pint; let groups ← many (many pnat); let metaIdx ← many pnat
     let tracks ← many msgs
